@@ -91,9 +91,10 @@ class Walker:
                 pass
         if tn == "Progress" and hasattr(o, "_futures"):
             try:
-                futs = sorted(
+                # registration order is kept: it is the order in which the waiters wake up
+                futs = [
                     (repr(self.visit(spec, depth + 1)), f.done(), f.cancelled())
-                    for spec, f in o._futures if not f.cancelled())
+                    for spec, f in o._futures if not f.cancelled()]
                 return ("progress", self.visit(o.time, depth + 1), tuple(futs))
             except Exception:  # noqa: BLE001
                 pass
@@ -127,6 +128,58 @@ class Walker:
         return ("obj", tn, tuple(items))
 
 
+def awaited_futures(obj, out, depth=0):
+    """ids of the plain futures a task is ultimately blocked on (through asyncio.gather
+    children and asyncio.wait sets).  The future a task waits for is `task._fut_waiter` (the
+    coroutine's cr_await is an opaque FutureIter for C futures)."""
+    if obj is None or depth > 30:
+        return
+    if isinstance(obj, asyncio.Task):
+        if obj.done():
+            return
+        # asyncio.wait keeps its set of awaitables in the _wait frame
+        co = obj.get_coro()
+        n = 0
+        while co is not None and n < 30:
+            n += 1
+            fr = getattr(co, "cr_frame", None)
+            if fr is not None and getattr(co, "__qualname__", "") == "_wait":
+                for f in fr.f_locals.get("fs", ()) or ():
+                    awaited_futures(f, out, depth + 1)
+            co = getattr(co, "cr_await", None)
+            if not isinstance(co, types.CoroutineType):
+                break
+        awaited_futures(getattr(obj, "_fut_waiter", None), out, depth + 1)
+        return
+    if isinstance(obj, asyncio.Future):
+        ch = getattr(obj, "_children", None)
+        if ch:
+            for c in ch:
+                awaited_futures(c, out, depth + 1)
+        elif not obj.done():
+            out.append(id(obj))
+
+
+def waiter_map(world):
+    """who waits at which position of whose Progress: the wake-up order of equal waiters"""
+    pos = {}
+    for sid, sim in world.sims.items():
+        futs = getattr(getattr(sim, "progress", None), "_futures", None) or []
+        for i, (spec, f) in enumerate(futs):
+            pos[id(f)] = (sid, i)
+    out = []
+    for sid in sorted(world.sims):
+        t = getattr(world.sims[sid], "task", None)
+        ids = []
+        if t is not None:
+            try:
+                awaited_futures(t, ids)
+            except Exception:  # noqa: BLE001
+                ids = []
+        out.append((sid, tuple(sorted(pos[i] for i in ids if i in pos))))
+    return tuple(out)
+
+
 def canon(run, extra=()):
     """Hash of the canonical state of `run` (a harness.Run) at quiescence."""
     w = run.world
@@ -145,6 +198,10 @@ def canon(run, extra=()):
     rtasks = tuple(("done",) if t.done() else coro_pos(t.get_coro()) for t in run.remote_tasks)
     timers = tuple(sorted(round(h._when - run.loop.time(), 9)
                           for h in run.loop._scheduled if not h._cancelled))
+    try:
+        extra = (extra, waiter_map(w))
+    except Exception:  # noqa: BLE001
+        pass
     blob = repr((parts, stubs, gates, tuple(chans), rtasks, timers,
                  getattr(w, "sim_progress", None) if False else None, extra))
     return hashlib.sha1(blob.encode()).hexdigest()
